@@ -81,16 +81,131 @@ theorem C17_builtin6 (name : String) (args : List ArgOracle) (cfg : Cfg6) (req :
     (h : plugSetup6 name args = some (.ok cfg)) (hd : C17.dom6 cfg req pre = true) :
     C17.holds6 cfg req pre (plugHandle6 cfg req pre) = true := c17_builtin6 name args cfg req pre h hd
 
-/-! ### "exactly the configured value": in-range numbers decode back to themselves -/
+/-! ### "exactly the configured value": numbers (MTU, lease time, V6ONLY_WAIT)
 
-/-- an MTU of 0..65535 is sent as that number (out of range it is truncated to 16 bits: outside
-the quantifier of C17) -/
+D22–D24 (repaired by three `fix:` commits): the set-ups of mtu, lease_time and ipv6only accepted every
+number the standard library parses, and the handlers sent it modulo 2^16 / 2^32 — an accepted
+configuration for which the plugin did NOT add the configured value. The two theorems below had the
+range as a hypothesis ("outside the quantifier of C17"): that reading was too lenient, the property
+says every ACCEPTED configuration. Now the set-ups test the range, and the range is a consequence of
+acceptance (`C17_*_accepted_in_range`); the per-plugin statements `C17_*4_accepted` have no range
+hypothesis left. -/
+
+/-- an MTU of 0..65535 is sent as that number -/
 theorem C17_inrange_mtu (n : Int) (h0 : 0 ≤ n) (h1 : n ≤ 65535) : decBe 2 (encU16 n) = some n.toNat :=
   decBe_encU16 n h0 h1
 
 /-- a duration of 0 to 2^32-1 seconds is sent as its whole seconds -/
 theorem C17_inrange_seconds (d : Int) (h0 : 0 ≤ d) (h1 : d < 4294967296 * 1000000000) :
     decBe 4 (encSecs d) = some (d / 1000000000).toNat := decBe_encSecs d h0 h1
+
+/-- what mtu's set-up accepts is 0..65535 -/
+theorem C17_mtu_accepted_in_range (args : List ArgOracle) (n : Int) (h : mtu.setup args = .ok n) :
+    0 ≤ n ∧ n ≤ 65535 := mtu_accepted args n h
+
+/-- what lease_time's set-up accepts is a duration of 0 to 2^32-1 seconds (nanoseconds; exactly 2^32-1
+seconds is the last one accepted, so the whole seconds are < 2^32) -/
+theorem C17_leasetime_accepted_in_range (args : List ArgOracle) (d : Int) (h : leasetime.setup args = .ok d) :
+    0 ≤ d ∧ d ≤ 4294967295 * 1000000000 := leasetime_accepted args d h
+
+/-- what ipv6only's set-up accepts is a wait of 0 to 2^32-1 seconds (0 without argument) -/
+theorem C17_ipv6only_accepted_in_range (args : List ArgOracle) (d : Int) (h : ipv6only.setup args = .ok d) :
+    0 ≤ d ∧ d ≤ 4294967295 * 1000000000 := ipv6only_accepted args d h
+
+/-- every configuration a built-in DHCPv4 plugin accepts holds numbers that fit the field they are sent in -/
+theorem C17_accepted_in_range (name : String) (args : List ArgOracle) (cfg : Cfg4)
+    (h : plugSetup4 name args = some (.ok cfg)) : C17.inRange4 cfg = true := accepted_inRange4 name args cfg h
+
+/-- … and so what a client decodes from the option is the configured number (`C17.exact4`: the MTU; the
+whole seconds of a duration) — for EVERY accepted configuration, no range hypothesis -/
+theorem C17_accepted_exact (name : String) (args : List ArgOracle) (cfg : Cfg4)
+    (h : plugSetup4 name args = some (.ok cfg)) : C17.exact4 cfg = true :=
+  exact_of_inRange4 cfg (accepted_inRange4 name args cfg h)
+
+/-- the range is exactly what "announced as itself" needs: a number outside it is never what a client reads -/
+theorem C17_exact_iff_in_range (cfg : Cfg4) : C17.exact4 cfg = true ↔ C17.inRange4 cfg = true :=
+  ⟨inRange_of_exact4 cfg, exact_of_inRange4 cfg⟩
+
+/-- mtu, for every ACCEPTED configuration: option 26 is added exactly when asked for (or no list), nothing
+else is touched, and its two bytes read back as the configured MTU -/
+theorem C17_mtu4_accepted (args : List ArgOracle) (c : mtu.Cfg) (hs : mtu.setup args = .ok c)
+    (req : ReqView4) (pre : Resp4) :
+    C17.holds4 (.mtu c) req pre (mtu.handle c req pre) = true ∧
+    (decBe 2 (encU16 c)).map Int.ofNat = some c := by
+  have hr := mtu_accepted args c hs
+  have he := exact_of_inRange4 (.mtu c) (inRange_mtu c hr)
+  simp only [C17.exact4, beq_iff_eq] at he
+  exact ⟨c17_mtu c req pre, he⟩
+
+/-- lease_time, for every ACCEPTED configuration: option 51 is added when no lease time is set yet, and
+its four bytes read back as the configured duration cut to whole seconds (parts of a second are
+accepted and not sent: the option has no room for them) -/
+theorem C17_leasetime4_accepted (args : List ArgOracle) (c : leasetime.Cfg) (hs : leasetime.setup args = .ok c)
+    (req : ReqView4) (pre : Resp4) :
+    C17.holds4 (.leasetime c) req pre (leasetime.handle c req pre) = true ∧
+    (decBe 4 (encSecs c)).map Int.ofNat = some (c / 1000000000) := by
+  have hr := leasetime_accepted args c hs
+  have he := exact_of_inRange4 (.leasetime c) (inRange_leasetime c hr)
+  simp only [C17.exact4, beq_iff_eq] at he
+  exact ⟨c17_leasetime c req pre, he⟩
+
+/-- ipv6only, for every ACCEPTED configuration: option 108 and a stopped chain for clients listing it, and
+its four bytes read back as the configured V6ONLY_WAIT cut to whole seconds -/
+theorem C17_ipv6only4_accepted (args : List ArgOracle) (c : ipv6only.Cfg) (hs : ipv6only.setup args = .ok c)
+    (req : ReqView4) (pre : Resp4) :
+    C17.holds4 (.ipv6only c) req pre (ipv6only.handle c req pre) = true ∧
+    (decBe 4 (encSecs c)).map Int.ofNat = some (c / 1000000000) := by
+  have hr := ipv6only_accepted args c hs
+  have he := exact_of_inRange4 (.ipv6only c) (inRange_ipv6only c hr)
+  simp only [C17.exact4, beq_iff_eq] at he
+  exact ⟨c17_ipv6only c req pre, he⟩
+
+/-- D22: `mtu 70000` was accepted and announced as 4464; `mtu -1` as 65535. Now both are refused. -/
+theorem C17_D22_mtu_refuted :
+    let a : ArgOracle := { raw := strBytes "70000", int := some 70000 }
+    let b : ArgOracle := { raw := strBytes "-1", int := some (-1) }
+    mtu.setupOld [a] = .ok 70000 ∧ decBe 2 (encU16 70000) = some 4464 ∧ C17.exact4 (.mtu 70000) = false ∧
+    mtu.setupOld [b] = .ok (-1) ∧ decBe 2 (encU16 (-1)) = some 65535 ∧ C17.exact4 (.mtu (-1)) = false ∧
+    mtu.setup [a] = .error () ∧ mtu.setup [b] = .error () := by
+  refine ⟨rfl, ?_, ?_, rfl, ?_, ?_, rfl, rfl⟩ <;> decide +kernel
+
+/-- D23: `lease_time -1h` was accepted and announced as 4294963696 s, `lease_time 1193047h` as 1904 s.
+Now both are refused. -/
+theorem C17_D23_leasetime_refuted :
+    let a : ArgOracle := { raw := strBytes "-1h", dur := some (-3600000000000) }
+    let b : ArgOracle := { raw := strBytes "1193047h", dur := some 4294969200000000000 }
+    leasetime.setupOld [a] = .ok (-3600000000000) ∧ decBe 4 (encSecs (-3600000000000)) = some 4294963696 ∧
+    C17.exact4 (.leasetime (-3600000000000)) = false ∧
+    leasetime.setupOld [b] = .ok 4294969200000000000 ∧ decBe 4 (encSecs 4294969200000000000) = some 1904 ∧
+    C17.exact4 (.leasetime 4294969200000000000) = false ∧
+    leasetime.setup [a] = .error () ∧ leasetime.setup [b] = .error () := by
+  refine ⟨rfl, ?_, ?_, rfl, ?_, ?_, rfl, rfl⟩ <;> decide +kernel
+
+/-- D24: `ipv6only -1s` was accepted and told the clients to wait 4294967295 s. Now it is refused. -/
+theorem C17_D24_ipv6only_refuted :
+    let a : ArgOracle := { raw := strBytes "-1s", dur := some (-1000000000) }
+    let b : ArgOracle := { raw := strBytes "4294967296s", dur := some 4294967296000000000 }
+    ipv6only.setupOld [a] = .ok (-1000000000) ∧ decBe 4 (encSecs (-1000000000)) = some 4294967295 ∧
+    C17.exact4 (.ipv6only (-1000000000)) = false ∧
+    ipv6only.setupOld [b] = .ok 4294967296000000000 ∧ decBe 4 (encSecs 4294967296000000000) = some 0 ∧
+    C17.exact4 (.ipv6only 4294967296000000000) = false ∧
+    ipv6only.setup [a] = .error () ∧ ipv6only.setup [b] = .error () := by
+  refine ⟨rfl, ?_, ?_, rfl, ?_, ?_, rfl, rfl⟩ <;> decide +kernel
+
+/-- the boundaries: 0 and 65535, 0 s and 2^32-1 s are accepted; a part of a second is accepted and cut
+(1500 ms is announced as 1 s); -100 ms — which the library would have sent as 0 — is refused -/
+example : mtu.setup [{ raw := [], int := some 0 }] = .ok 0 ∧ mtu.setup [{ raw := [], int := some 65535 }] = .ok 65535 ∧
+    mtu.setup [{ raw := [], int := some 65536 }] = .error () := ⟨rfl, rfl, rfl⟩
+example : leasetime.setup [{ raw := [], dur := some 0 }] = .ok 0 ∧
+    leasetime.setup [{ raw := [], dur := some 4294967295000000000 }] = .ok 4294967295000000000 ∧
+    leasetime.setup [{ raw := [], dur := some 4294967295000000001 }] = .error () ∧
+    leasetime.setup [{ raw := [], dur := some 1500000000 }] = .ok 1500000000 ∧ decBe 4 (encSecs 1500000000) = some 1 ∧
+    leasetime.setup [{ raw := [], dur := some (-100000000) }] = .error () ∧
+    leasetime.setupOld [{ raw := [], dur := some (-100000000) }] = .ok (-100000000) ∧ decBe 4 (encSecs (-100000000)) = some 0 :=
+  ⟨rfl, rfl, rfl, rfl, by decide +kernel, rfl, rfl, by decide +kernel⟩
+example : ipv6only.setup [] = .ok 0 ∧ ipv6only.setup [{ raw := [], dur := some 4294967295000000000 }] = .ok 4294967295000000000 ∧
+    ipv6only.setup [{ raw := [], dur := some (-100000000) }] = .error () ∧
+    ipv6only.setup [{ raw := [], dur := some (-1000000000) }, { raw := [] }] = .error () := ⟨rfl, rfl, rfl, rfl⟩
 
 /-! ### D17 -/
 
